@@ -136,6 +136,6 @@ PROPS = {
         'e3_always': ['cldb'],
         'e3': ['cldb', 'choose_path'],
         'decided': 'what the debugger presents is the value it computed: improve_presentation and humanize (applied to every shown value and to the final result) return the same CLVM value, only spelled differently (R6 for the pointer-sharing shortcut); plus the stepping-evaluator leaves of C06 that every row is produced from (path lookup, truthiness, atom_value)',
-        'not_covered': ['CldbRun::step row / ended / final bookkeeping and that the run ends with the consensus result: bounded stand-in only (E3: enumerated programs x 3 environments, final value, failure iff consensus fails, consecutive rows)', 'truth of each (operator, arguments, value) row w.r.t. the consensus evaluator', 'cldb_hierarchy', 'hex-supplied programs (hex_to_modern_sexp_inner)'],
+        'not_covered': ['CldbRun::step row / ended / final bookkeeping and that the run ends with the consensus result: bounded stand-in only (E3: enumerated programs x 3 environments: final value, failure iff consensus fails, consecutive rows, and every (operator, arguments, value) row re-evaluated with the consensus evaluator; open finding F19: rows of the primitive if)', 'cldb_hierarchy', 'hex-supplied programs (hex_to_modern_sexp_inner)'],
     },
 }
